@@ -18,6 +18,7 @@ META = {
     "trusted_base": ["tokio::sync::broadcast: Closed is reported only after all senders are gone and the buffer is drained; a pending recv is woken by the last sender's drop", "rustc MIR construction"],
     "assumptions": [],
 }
+META["explanation"] += " R08.4 no value owning the broadcast Sender (the ObservableVector, the Sender) is handed to mem::forget / ManuallyDrop::new / Box::leak / into_raw: the channel is closed by the Sender's destructor."
 
 RECV = r"broadcast::Receiver::<.*>::(try_recv|recv)$|ReusableBoxRecvFuture::<.*>::poll$|ReusableBoxFuture::<.*>::poll$"
 
@@ -43,6 +44,7 @@ def run(ctx):
     r08_1(ctx, streams + [lag])
     r08_2(ctx)
     r08_3(ctx, streams, lag)
+    r08_4(ctx)
     from .c06 import commit_state
     commit_state(ctx)  # shared with C06/R06.1: the snapshot a lagging subscriber is reset to
 
@@ -152,3 +154,37 @@ def r08_3(ctx, streams, lag):
                              "None is returned on a path that already holds a received message (Ok edge of %s): the diffs collected so far are dropped and the stream ends before delivering what is pending" % fmt(oks[0][1], 2))
             else:
                 ctx.holds("R08.3", f, "received-batch-delivered", sb.line_at(loc), "the None site is not under an Ok edge of a receive")
+
+
+LEAK = r"^std::mem::forget$|ManuallyDrop::<.*>::new$|Box::<.*>::(leak|into_raw)$|Arc::<.*>::into_raw$"
+
+
+def r08_4(ctx):
+    """the sender goes away with the vector: `Closed` (end of every stream, wake-up of pending receivers) is produced by the
+    drop of the one Sender, so a value that owns it - the ObservableVector, or the Sender itself - must never be handed to a
+    function that suppresses its destructor. Expected count 0."""
+    F = ctx.facts
+    n = 0
+    bad = 0
+    for f in F.find(crate=IM):
+        b = f.built
+        if not b:
+            continue
+        for blk, t in b.calls(LEAK):
+            n += 1
+            tys = []
+            for a in t["args"]:
+                if a["k"] in ("move", "copy"):
+                    ty = str(b.locals[a["place"]["l"]]["ty"])
+                    if not a["place"]["proj"]:
+                        tys.append(ty)
+                    else:
+                        tys.append(ty + " (projection)")
+            owns = [ty for ty in tys if re.search(r"vector::ObservableVector<|broadcast::Sender<", ty) and "(projection)" not in ty and not ty.startswith("&")]
+            if owns:
+                bad += 1
+                ctx.violated("R08.4", root_fn(F, f), "sender-destructor-suppressed", b.line_at((blk, 10 ** 6)),
+                             "`%s` passes a `%s` to `%s`: the broadcast Sender inside is never dropped, so the channel is never closed - subscribers' streams stay Pending forever instead of ending, and pending ones are not woken" % (
+                                 root_fn(F, f).path, owns[0], (t.get("callee") or "").split("::")[-1]))
+    if not bad:
+        ctx.holds("R08.4", None, "sender-destructor-suppressed=0", None, "%d destructor-suppressing call(s) in eyeball-im, none on a value owning the Sender" % n)
